@@ -313,6 +313,17 @@ def evaluate(mod, cases, out, stats):
             stats['nontrivial'].add(hashlib.sha1(canon(case).encode()).hexdigest())
         cls = mod.classify(case, ir) if hasattr(mod, 'classify') else 'case'
         stats['dist'][cls] = stats['dist'].get(cls, 0) + 1
+        if hasattr(mod, 'judge'):
+            # the module decides with the model result in hand: [(what, kind, finding id | None)]
+            ms = per_case.get(k)
+            ms = None if (ms is None or None in ms) else (ms if len(ms) > 1 else ms[0])
+            for what, kind, fid in mod.judge(case, ir, ms):
+                if fid:
+                    c, ex = out.known_hits.get(fid, (0, None))
+                    out.known_hits[fid] = (c + 1, ex or (case, what))
+                else:
+                    out.failures.append((case, what, kind))
+            continue
         # 1. the property itself, evaluated directly on the implementation's output
         fail = mod.oracle(case, ir)
         if fail:
@@ -549,6 +560,14 @@ def evaluate_impl_only(mod, cases, out, stats):
     for case in cases:
         stats['evaluations'] += 1
         ir = mod.run_impl(case)
+        if hasattr(mod, 'judge'):
+            for what, kind, fid in mod.judge(case, ir, None):
+                if fid:
+                    c, ex = out.known_hits.get(fid, (0, None))
+                    out.known_hits[fid] = (c + 1, ex or (case, what))
+                else:
+                    out.failures.append((case, what, kind))
+            continue
         fail = mod.oracle(case, ir)
         if fail:
             fid = mod.known(case, fail) if hasattr(mod, 'known') else None
